@@ -250,7 +250,8 @@ def db_recorder_class():
 
 class IfaceSpec:
     def __init__(self, name, enabled=True, bolForce=False, reverse=False, deferred=False, haltCycle=None,
-                 coupled=False, isDb=False, haltRequested=True, restartAt=None):
+                 coupled=False, isDb=False, haltValue=True, idleValue=False, haltRequested=True,
+                 restartAt=None):
         self.name = name
         self.enabled = enabled
         self.bolForce = bolForce
@@ -259,6 +260,8 @@ class IfaceSpec:
         self.haltCycle = haltCycle
         self.coupled = coupled
         self.isDb = isDb
+        self.haltValue = haltValue           # object the beginning-of-cycle hook returns in its halt cycle
+        self.idleValue = idleValue           # ... and in every other cycle (must not ask for a halt)
         self.haltRequested = haltRequested   # False: what the hook returns in its halt cycle does not ask for a halt
         self.restartAt = restartAt           # (cycle, node) the interface moves the reactor to while handling BOL
 
